@@ -9,6 +9,10 @@ import zlib
 
 HERE = os.path.dirname(os.path.abspath(__file__))
 sys.path.insert(0, HERE)
+import warnings
+warnings.filterwarnings("ignore", category=RuntimeWarning)
+import numpy as _np_
+_np_.seterr(all="ignore")
 
 EXIT_OK, EXIT_VIOLATION, EXIT_HARNESS = 0, 1, 2
 
